@@ -429,6 +429,15 @@ func runImpl(d desc) (o outcome) {
 		o.sup = append(o.sup, [2]float64{v.X(), v.Y()})
 	}
 	m := triangulation.BowyerWatson(pts)
+	// the result of the PREVIOUS call, read again now: it must still be what it was
+	if retained.ok {
+		if why := retained.changed(); why != "" {
+			o.crash = "the mesh returned by the previous call changed after this call: " + why
+			retained.ok = false
+			return
+		}
+	}
+	defer func() { retained.keep(m) }()
 	idx := m.Indices()
 	if idx.Len()%3 != 0 {
 		o.crash = fmt.Sprintf("index count %d not a multiple of 3", idx.Len())
@@ -461,6 +470,52 @@ func runImpl(d desc) (o outcome) {
 	return
 }
 
+// retained result of the previous call (re-read after the next one)
+type retainedMesh struct {
+	ok  bool
+	m   modeling.Mesh
+	idx []int
+	pos [][3]float64
+}
+
+var retained retainedMesh
+
+func snapshot(m modeling.Mesh) (idx []int, pos [][3]float64) {
+	it := m.Indices()
+	for i := 0; i < it.Len(); i++ {
+		idx = append(idx, it.At(i))
+	}
+	if m.HasFloat3Attribute(modeling.PositionAttribute) {
+		pa := m.Float3Attribute(modeling.PositionAttribute)
+		for i := 0; i < pa.Len(); i++ {
+			v := pa.At(i)
+			pos = append(pos, [3]float64{v.X(), v.Y(), v.Z()})
+		}
+	}
+	return
+}
+func (r *retainedMesh) keep(m modeling.Mesh) {
+	defer func() { recover() }()
+	r.m = m
+	r.idx, r.pos = snapshot(m)
+	r.ok = true
+}
+func (r *retainedMesh) changed() (why string) {
+	defer func() {
+		if e := recover(); e != nil {
+			why = fmt.Sprint(e)
+		}
+	}()
+	idx, pos := snapshot(r.m)
+	if !slices.Equal(idx, r.idx) {
+		return fmt.Sprintf("indices %v became %v", r.idx, idx)
+	}
+	if !slices.Equal(pos, r.pos) {
+		return "Position attribute differs"
+	}
+	return ""
+}
+
 func canon(t [3]int) [3]int { // rotation with the smallest index first (keeps orientation)
 	for t[0] > t[1] || t[0] > t[2] {
 		t = [3]int{t[1], t[2], t[0]}
@@ -491,6 +546,8 @@ func vset(t [3]int) [3]int { // unordered vertex set
 // doubled coordinates).  Any other triangle of the true triangulation has a strictly empty
 // circumdisk with respect to input and super vertices and therefore belongs to every Delaunay
 // triangulation of the extended point set: an exact Bowyer-Watson run cannot lose it.
+const gpClaimMax = 26 // gp_strongb is O(n^4): about 1.3 s of vm_compute at 26 points
+
 const failKeyDrop = "triangulation:finite-super-triangle-drops-hull-triangles"
 
 func trueDelaunay(ps []P) map[[3]int]bool {
@@ -605,9 +662,9 @@ func classify(ps []P, tris [][3]int) (bool, string, int) {
 }
 
 // ---------------------------------------------------------------- one case
-func coqCase(d desc, o outcome, posInt [][3]int64, supHalf [][2]int64, afterInt [][2]int64, needSpec, needCover bool) string {
+func coqCase(d desc, o outcome, posInt [][3]int64, supHalf [][2]int64, afterInt [][2]int64, needSpec, needCover, gp bool) string {
 	var b strings.Builder
-	fmt.Fprintf(&b, "CTri %s %s %s [", hx.CoqBool(d.Model), hx.CoqBool(needSpec), hx.CoqBool(needCover))
+	fmt.Fprintf(&b, "CTri %s %s %s %s [", hx.CoqBool(d.Model), hx.CoqBool(needSpec), hx.CoqBool(needCover), hx.CoqBool(gp && d.Model))
 	for i, p := range d.Pts {
 		if i > 0 {
 			b.WriteByte(';')
@@ -684,7 +741,7 @@ func runCase(run *hx.Run, d desc, kind string) {
 	c.Key = string(kb)
 	if o.crash != "" {
 		c.GoFail = "Crash: " + o.crash
-		c.Coq = coqCase(desc{Pts: d.Pts}, outcome{}, nil, nil, nil, true, true)
+		c.Coq = coqCase(desc{Pts: d.Pts}, outcome{}, nil, nil, nil, true, true, false)
 		run.Add(c)
 		return
 	}
@@ -766,15 +823,45 @@ func runCase(run *hx.Run, d desc, kind string) {
 			run.Count("complete")
 		case key != "":
 			run.Count("known:hull-triangles-dropped")
+			if missing >= 2 {
+				run.Count("known:two-or-more-triangles-dropped")
+			}
 		default:
 			run.Count(fmt.Sprintf("incomplete-or-unsound(missing=%d)", missing))
 		}
 	}
+	// strong general position of input ++ super triangle (the hypothesis of the Coq theorem bw_delaunay):
+	// decided here exactly and, for inputs small enough, handed to Check/C20.v as a claim that gp_strongb
+	// re-decides — on those inputs the model's output is proved to meet the statement
+	gpClaim := false
+	if c.GoFail == "" && d.Model && !d.Dup {
+		switch {
+		case len(ps) > gpClaimMax:
+			run.Count("gp-strong:not-evaluated(too large)")
+		case strongGP(ps):
+			gpClaim = true
+			run.Count("gp-strong:holds(re-decided in Coq)")
+		default:
+			run.Count("gp-strong:fails(super-triangle vertex collinear/concyclic with input points)")
+		}
+	}
+	if c.GoFail == "" && !d.Dup && len(ps) <= 64 {
+		switch fr := farReach(ps); {
+		case fr > 64:
+			run.Count("far-bad-triangle:>64-perimeters")
+		case fr > 16:
+			run.Count("far-bad-triangle:16-64-perimeters")
+		case fr > 4:
+			run.Count("far-bad-triangle:4-16-perimeters")
+		case fr > 2:
+			run.Count("far-bad-triangle:2-4-perimeters")
+		}
+	}
 	known := c.FailKey != ""
 	if c.GoFail != "" {
-		c.Coq = coqCase(desc{Pts: d.Pts}, outcome{}, nil, nil, nil, true, true)
+		c.Coq = coqCase(desc{Pts: d.Pts}, outcome{}, nil, nil, nil, true, true, false)
 	} else {
-		c.Coq = coqCase(d, o, posInt, supHalf, afterInt, true, !known && !d.Dup)
+		c.Coq = coqCase(d, o, posInt, supHalf, afterInt, true, !known && !d.Dup, gpClaim)
 	}
 	run.Count("gen:" + d.Gen)
 	switch n := len(ps); {
@@ -803,7 +890,7 @@ func runCase(run *hx.Run, d desc, kind string) {
 	d2 := d
 	d2.Model = false
 	c2 := hx.Case{Kind: kind + "-cover", Desc: d, Nontriv: false, Key: c.Key, FailKey: failKeyDrop}
-	c2.Coq = coqCase(d2, o, posInt, supHalf, afterInt, false, true)
+	c2.Coq = coqCase(d2, o, posInt, supHalf, afterInt, false, true, false)
 	run.Add(c2)
 }
 
@@ -845,6 +932,12 @@ func main() {
 		// identity (one vertex per input point, in input order) must survive
 		{Pts: [][2]int64{{782, 788}, {888, 890}, {597, 601}, {113, 125}, {0, 0}, {582, 586}, {1173, 1171}, {253, 251}}, Shift: -10, Model: true, Wide: true, Gen: "fixed"},
 		{Pts: [][2]int64{{782, 788}, {888, 890}, {597, 601}, {113, 125}, {0, 0}, {582, 586}, {1173, 1171}, {253, 251}}, OffX: 1 << 20, OffY: -(1 << 18), Model: true, Wide: true, Gen: "fixed"},
+		// a flat triangle (angle about 178 degrees, circumradius 12.5 x its base) built first, then a point inside
+		// its circumcircle ten base lengths away; and the same with the far point first
+		{Pts: [][2]int64{{0, 1000}, {100, 1002}, {51, 1002}, {53, 0}}, Model: true, Wide: true, Gen: "fixed-far"},
+		{Pts: [][2]int64{{53, 0}, {0, 1000}, {100, 1002}, {51, 1002}}, Shift: -12, Model: true, Wide: true, Gen: "fixed-far"},
+		// two points just inside the bottom hull edge: both flat hull triangles are dropped (one pocket, two vertices)
+		{Pts: [][2]int64{{0, 0}, {4000, 3}, {1200, 2}, {2600, 4}, {900, 3000}, {3100, 2800}, {2000, 1500}}, Model: true, Wide: true, Gen: "fixed-pocket"},
 	} {
 		d.Spare = []int{0, 3, 1, 4, 16, 2}[fixedNo%6]
 		fixedNo++
@@ -892,6 +985,10 @@ func main() {
 			d = genWheel(r, 64)
 		case i%16 == 9: // exactly repeated points (9 is not taken by the i%8 streams above)
 			d = genDup(r)
+		case i%16 == 14: // very flat triangles built before distant points inside their huge circumcircles
+			d = genOutlier(r)
+		case i%16 == 15: // two or more points just inside one hull edge (multi-vertex pocket of the known finding)
+			d = genPocket(r)
 		case i%16 == 7: // checker only, larger
 			d = genDesc(r, r.Range(41, maxBig), false)
 		case i%4 == 0:
